@@ -337,5 +337,29 @@ func H_C15_placeholderCount(inst int) {
 	case 3:
 		t, err := parseWith(i, "f(?, ?).", v, v)
 		verify(err == nil && t != nil, "2 placeholders, 2 arguments: error")
+	case 4:
+		_, err := parseWith(i, "f(?).")
+		verify(err != nil, "1 placeholder, 0 arguments: no error")
+	case 5:
+		_, err := parseWith(i, "f(?, g(?)).")
+		verify(err != nil, "2 placeholders, 0 arguments: no error")
+	case 6:
+		// through the public API, on a full interpreter
+		full := newFull()
+		sols, err := full.Query("X = f(?).")
+		if err == nil {
+			sols.Close()
+		}
+		verify(err != nil, "Query with 1 placeholder and 0 arguments: no error")
+		err = full.Exec("allowed_c15(?).")
+		verify(err != nil, "Exec with 1 placeholder and 0 arguments: no error")
+		sol := full.QuerySolution("atom(?).")
+		verify(sol.Err() != nil, "QuerySolution with 1 placeholder and 0 arguments: no error")
+	case 7:
+		_, err := parseWith(i, "f(?, ?, ?).", v, v)
+		verify(err != nil, "3 placeholders, 2 arguments: no error")
+	case 8:
+		_, err := parseWith(i, "f([?|?]).", v)
+		verify(err != nil, "2 placeholders in a list, 1 argument: no error")
 	}
 }
